@@ -127,7 +127,7 @@ def run(tier, seed):
                  "path length and data length), compared with the reference tables of the LHA format held by the checker; the "
                  "endian decoders, the OS-9 permission mapping and the DOS date/time bit-fields are proven bit-exact by GF(2) "
                  "bit-level evaluation; the extended-header registry is compared entry by entry and its dispatcher is evaluated for all 256 type bytes; the "
-                 "all-caps folding of DOS-like names is shown to run only after both strings were scanned clean. Decides the field wiring for all "
+                 "all-caps folding of DOS-like names is shown to run only after both strings were scanned clean; a symlink entry's name and target are cut at the first '|' of the joined path+filename string. Decides the field wiring for all "
                  "headers at once (the suite's sizes stay below 2^24 and it has no 0x52/0x53 headers). Not decided: separator "
                  "normalisation values (C11), mktime's arithmetic, position of member data.")
     with Context(tier) as ctx:
